@@ -13,7 +13,41 @@ package wal
 //@ field wal.WAL.path immutable
 //@ field wal.WAL.version immutable
 //
-//@ func (*wal.WAL).close
-//@ props C12
-//@ trusted no functional contract yet (C03); only the lock clause is used, checked on the body by the C12 sweep
+// C14 / C03: the write-ahead ordering. walOK: an open WAL's descriptor is open on its own path.
+// WalRec is the byte string the last Write prepared from its entries (that it decodes back to them
+// is the wal part of C11 and not decided here).
+//@ ghost WalRec Str
+//@ globalinv errNilFD != nil
+//@ define walOK(w) = w != nil && (w.fd != nil ==> (FdOpen[ref(w.fd)] && FdPath[ref(w.fd)] == w.path))
+//
+//@ func (*wal.WAL).close -> err
+//@ props C12 C14 C03
+//@ requires walOK(w)
 //@ holds w.mu
+//@ assigns w.fd, FdOpen
+//@ ensures err == nil ==> (walOK(w) && w.fd == nil)
+//
+// Write returns nil only after the records have been appended to the log file and the file has been
+// fsynced: the whole file content is covered by the sync and is the old content followed by the new
+// records; no other file changes.
+//@ func (*wal.WAL).Write -> err
+//@ props C14 C03 C04
+//@ requires walOK(w)
+//@ assigns DskData, DskSync, WalRec, BufC, BufStore, BufOwned
+//@ ensures err == nil ==> w.fd != nil
+//@ ensures err == nil ==> DskSync[w.path] == len(DskData[w.path])
+//@ ensures err == nil ==> DskData[w.path] == old(DskData[w.path]) + WalRec
+//@ ensures forall(Str(q), q != w.path ==> (DskData[q] == old(DskData)[q] && DskSync[q] == old(DskSync)[q]), trig(DskData[q]), trig(DskSync[q]))
+//@ ensures len(DskData[w.path]) >= len(old(DskData[w.path])) && (DskSync[w.path] == old(DskSync[w.path]) || DskSync[w.path] == len(DskData[w.path]))
+//@ before_call binary.Write#0: ghost WalRec = BufC[ref(buf)]
+//@ loop 0:
+//@   invariant w.fd != nil && FdOpen[ref(w.fd)] && FdPath[ref(w.fd)] == w.path && buf != nil && BufOwned[ref(buf)]
+//@   invariant DskData == old(DskData) && DskSync == old(DskSync)
+//
+// Delete closes and removes the log file; nothing else on disk changes.
+//@ func (*wal.WAL).Delete -> err
+//@ props C14 C03
+//@ requires walOK(w)
+//@ assigns w.fd, FdOpen, DskEx
+//@ ensures err == nil ==> DskEx == store(old(DskEx), w.path, false)
+//@ ensures err != nil ==> DskEx == old(DskEx)
